@@ -33,6 +33,7 @@ EXPLANATION = (
     "Round 7 (the corner cases the property names; defects F24-F29): (CPSTATE) a copied processor takes every attribute, the id counter included, from the same attribute of its source; (EMPTYPATH) functions handed the caller's `optimize` read `optimize[k]` only when the path has an element; (ZEROSTEP) logarithms of an operation count that is 0 for a no-step contraction are floored - the hyper-optimizer's exact objectives are not (known finding F29); (CHILDLESS initial) the root starts in the set of nodes still to divide only when it is not a leaf; (PROGRESS) every partition-driven loop escapes when the partition did nothing; (NONEMPTY) a tally that is picked from has an entry on every CFG path, extremes over per-edge collections have a default. "
     'Round 8: (LOGDOMAIN) sign-domain analysis of the logarithms in the greedy score; (FRESHOPT, shared with C16-MEMOFACTORY) no preset is served by a memoised result-carrying optimizer. '
     'Round 9 (engine E9): (PROCEVAL) optimize_greedy and optimize_optimal, with the ContractionProcessor class they drive, are evaluated end to end on every network of one to three tensors (and a sample of four-tensor ones) over a small alphabet of terms; the returned paths are replayed and must consume every input exactly once. '
+    '(RGEVAL) the random-greedy finder is evaluated end to end on every small network: complete paths, reported cost = cost of the returned path. '
 )
 ASSUMPTIONS = ("partition functions return one label per node; kahypar corner-case guards are not decided",)
 
@@ -1450,6 +1451,113 @@ def rule_proceval(ctx):
     return r
 
 
+def rule_rgeval(ctx):
+    """(engine E9) The random-greedy finder end to end: `optimize_random_greedy_track_flops` simplifies once, *copies*
+    the processor for every trial and keeps the cheapest trial.  Evaluated (constant cost modifier, temperature 0, a
+    stub generator, three trials) on the networks of [C05-PROCEVAL] plus chains whose tensors carry traces — the
+    networks on which the simplification does something, so that a copied processor must carry on with the ids the
+    source would have used.  The returned path is replayed as in PROCEVAL; the reported log10 of the operation count is
+    compared with the count of the returned path by the definitions, for every network without an index on all
+    tensors (for those the difference is the known finding F8a, reported by [C18-DROP])."""
+    import itertools
+    import math
+    import random as _random
+    import types
+
+    from ..engine.minieval import Mini, NoEval, Raised
+
+    r = RuleResult("C05-RGEVAL", "random-greedy returns complete paths and reports their cost on every small network", 2)
+    m = ctx.p.modules[C.BASIC]
+    fs = {g.name: g.node for g in m.all_funcs if g.cls is None}
+    cpc = _cp(ctx)
+    classes = {CP: {n_: f_.node for n_, f_ in cpc.methods.items()}}
+    f = ctx.p.func(C.BASIC, "optimize_random_greedy_track_flops")
+    C.require(f is not None, "optimize_random_greedy_track_flops not found")
+    terms = ["", "a", "b", "aa", "ab", "ba", "bb", "c"]
+    nets = []
+    for N in (1, 2, 3):
+        nets += list(itertools.product(terms, repeat=N))
+    nets += [("aab", "bcc", "cd", "de"), ("aab", "bc", "cdd", "d"), ("ab", "ab", "bc", "c"), ("a", "ab", "bcc", "cd", "dee"), ("aa", "b", "bc", "c")]
+    sd = {"a": 2, "b": 3, "c": 2, "d": 2, "e": 3}
+
+    def stub_rng(seed=None):
+        g_ = _random.Random(1)
+        return types.SimpleNamespace(uniform=g_.uniform, random=g_.random)
+    k1 = ctx.key(f, "C05-RGEVAL", "complete")
+    k2 = ctx.key(f, "C05-RGEVAL", "reported-cost")
+    bad1 = bad2 = None
+    n = n2 = 0
+    try:
+        for net in nets:
+            flat = "".join(net)
+            once = "".join(c for c in "abcde" if flat.count(c) == 1)
+            for out in {"", once}:
+                n += 1
+                try:
+                    path, lf = Mini(fs, budget=600000, classes=classes, externals={"get_rng": stub_rng}).call(
+                        f.node, [tuple(tuple(t) for t in net), tuple(out), sd], {"ntrials": 3, "temperature": 0.0, "costmod": 1.0})
+                except Raised as e:
+                    bad1 = bad1 or (net, out, f"raises ({e.text})")
+                    continue
+                except NoEval:
+                    raise
+                except Exception as e:
+                    bad1 = bad1 or (net, out, f"raises ({type(e).__name__}: {e})")
+                    continue
+                app = {}
+                for c in flat + out:
+                    app[c] = app.get(c, 0) + 1
+                live = []
+                for t in net:
+                    d = {}
+                    for c in t:
+                        d[c] = d.get(c, 0) + 1
+                    live.append({c: v for c, v in d.items() if v < app[c]})
+                cnt = len(net)
+                why = None
+                flops = 0
+                for stp in path:
+                    stp = list(stp)
+                    if len(set(stp)) != len(stp) or any(not (0 <= c < cnt) for c in stp) or not stp:
+                        why = f"step {tuple(stp)} of {[tuple(x) for x in path]} does not name distinct existing positions (of {cnt})"
+                        break
+                    parts = [live[c] for c in stp]
+                    for c in sorted(stp, reverse=True):
+                        live.pop(c)
+                    merged = {}
+                    for p_ in parts:
+                        for c, v in p_.items():
+                            merged[c] = merged.get(c, 0) + v
+                    if len(stp) > 1:
+                        fl_ = 1
+                        for c in merged:
+                            fl_ *= sd[c]
+                        flops += fl_
+                    live.append({c: v for c, v in merged.items() if v < app[c]})
+                    cnt -= len(stp) - 1
+                if why is None and cnt != 1:
+                    why = f"the path {[tuple(x) for x in path]} leaves {cnt} tensors"
+                if why:
+                    bad1 = bad1 or (net, out, why)
+                    continue
+                if any(all(c in t for t in net) for c in set(flat)):
+                    continue  # an index on every tensor: known finding F8a ([C18-DROP])
+                n2 += 1
+                if not math.isclose(10 ** lf, max(1, flops), rel_tol=1e-9) and bad2 is None:
+                    bad2 = (net, out, f"reports 10**{lf:.4f} = {10 ** lf:.6g} operations, the returned path {[tuple(x) for x in path]} costs {flops}")
+    except NoEval as e:
+        raise AnalysisError(f"optimize_random_greedy_track_flops: not evaluable by the mini-evaluator ({e})")
+    if bad1:
+        r.violation(k1, f.loc, f"random-greedy on `{','.join(bad1[0])}->{bad1[1]}`: {bad1[2]}")
+    else:
+        r.ok(k1, f.loc, f"{n} networks: every input consumed once, one tensor left")
+    if bad2:
+        r.violation(k2, f.loc, f"random-greedy on `{','.join(bad2[0])}->{bad2[1]}` {bad2[2]}")
+    else:
+        r.ok(k2, f.loc, f"{n2} networks without an index on all tensors: the reported count is the cost of the returned path")
+    return r
+
+
 def _shared_rules():
     """Completion of partial caller-supplied paths needs the converters to know the number of inputs (F22)."""
     out = []
@@ -1465,4 +1573,4 @@ def _shared_rules():
     return out
 
 
-RULES = [rule_proceval, rule_logdomain, rule_freshopt, rule_progress, rule_nonempty, rule_zerostep, rule_emptypath, rule_cpstate, rule_consume, rule_remain, rule_complete, rule_linearids, rule_steps, rule_childless, rule_labels, rule_edgepath] + _shared_rules()
+RULES = [rule_rgeval, rule_proceval, rule_logdomain, rule_freshopt, rule_progress, rule_nonempty, rule_zerostep, rule_emptypath, rule_cpstate, rule_consume, rule_remain, rule_complete, rule_linearids, rule_steps, rule_childless, rule_labels, rule_edgepath] + _shared_rules()
